@@ -102,6 +102,7 @@ type interpreter struct {
 	steps              int64
 	inHarness          bool
 	locIDs             map[*value]int
+	sliceData          map[*value][]value
 	files              map[*value]int
 	fileData           map[int][][]value
 	funcsRun           map[string]int
@@ -825,6 +826,7 @@ func NewInterp(p *Program) *interpreter {
 		funcsRun:   make(map[string]int),
 		locIDs:     make(map[*value]int),
 		files:      make(map[*value]int),
+		sliceData:  make(map[*value][]value),
 		fileData:   make(map[int][][]value),
 		stubHits:   make(map[string]int),
 	}
